@@ -592,40 +592,42 @@ def gen_random(R, rng, count):
         n = 100 + i
         target = rng.choice(["client_1", "client_1", "client_2"])
         c = base_claims(target, n)
-        owner = rng.choice(owners) if rng.random() < 0.6 else target
+        owner = rng.choice(owners) if rng.random() < 0.3 else target
         alg = rng.choice(algs)
         if owner == "OP" and S.ALG_KTY[alg] == "oct":
             alg = "RS256"
-        # random faults
-        if rng.random() < 0.25:
+        # random faults (each with a small probability, so that about a third of the cases is fault-free)
+        if rng.random() < 0.1:
             c = dict(c, iss=rng.choice(["client_1", "client_2", "mallory", ISS]))
-        if rng.random() < 0.15:
+        if rng.random() < 0.07:
             c = without(c, "iss")
-        if rng.random() < 0.2:
+        if rng.random() < 0.1:
             c = dict(c, client_id=rng.choice(["client_1", "client_2", "nobody"]))
-        if rng.random() < 0.2:
+        if rng.random() < 0.1:
             c = dict(c, redirect_uri=rng.choice(list(S.REDIRECT.values()) + ["https://evil.example.org/cb"]))
-        if rng.random() < 0.2:
+        if rng.random() < 0.1:
             c = without(c, rng.choice(["client_id", "redirect_uri", "response_type", "scope", "state"]))
         if rng.random() < 0.2:
             c = dict(c, scope=rng.choice(["openid", "openid profile", "email", "openid email phone"]))
         obj = genuine(owner, alg, c)
         r = rng.random()
-        if r < 0.12 and alg != "none":
+        if r < 0.06 and alg != "none":
             obj = {"alg": alg, "claims": dict(c, state="evil%d" % n), "sig": obj["sig"]}
-        elif r < 0.2 and alg != "none":
+        elif r < 0.1 and alg != "none":
             obj = {"alg": rng.choice(algs), "claims": c, "sig": obj["sig"]}
-        elif r < 0.25:
+        elif r < 0.13:
             obj = {"alg": alg, "claims": c, "sig": None}
         over = {}
-        if rng.random() < 0.3:
-            over["client_id"] = rng.choice(["client_1", "client_2"])
+        if target != "client_1" or rng.random() < 0.1:
+            over["client_id"] = target if rng.random() < 0.85 else rng.choice(["client_1", "client_2"])
             over["redirect_uri"] = S.REDIRECT[over["client_id"]]
-        if rng.random() < 0.15:
+        if rng.random() < 0.1:
             over[rng.choice(["scope", "state", "redirect_uri"])] = None
         if rng.random() < 0.15:
             over["nonce"] = "n%d" % n
-        conf = {"reg": {"client_1": rng.choice(REGS), "client_2": rng.choice(REGS)}, "prov_algs": rng.choice(PROVS)}
+        regs = {cid: (rng.choice([None, None, alg, alg, [alg, "ES256"]]) if rng.random() < 0.7 else rng.choice(REGS))
+                for cid in ("client_1", "client_2")}
+        conf = {"reg": regs, "prov_algs": rng.choice([None, None] + PROVS)}
         if transport == "uri" and rng.random() < 0.2:
             conf["request_uris"] = {"client_1": [DOC % n if rng.random() < 0.6 else DOC % 0]}
         pusher = over.get("client_id", "client_1") if rng.random() < 0.8 else rng.choice(["client_1", "client_2"])
@@ -633,12 +635,13 @@ def gen_random(R, rng, count):
         R.run_case("random", (oidc, meth, True, 3600), conf, docs, ops, note="random %s" % transport)
 
 
-PAR_ALPHABET = "PQRLTX"
+PAR_ALPHABET = "PQRLTUX"
 
 
 def par_ops_from_word(word, tag):
     """P: push plain by client_1; Q: push a signed object by client_1; R: redeem the first issued uri; L: redeem the latest;
-    T: tick 6 s (ttl is 10 s); X: re-push attempt by client_2 (PAR body carrying the latest issued request_uri)"""
+    T: tick 10 s = exactly the ttl; U: tick 1 s; X: re-push attempt by client_2 (PAR body carrying the latest issued
+    request_uri)"""
     ops = []
     k = 0
     for ch in word:
@@ -654,7 +657,9 @@ def par_ops_from_word(word, tag):
         elif ch == "L":
             ops.append(("redeem", -1, dict(base_outer("client_1", 0), state="red_" + mk)))
         elif ch == "T":
-            ops.append(("tick", 6))
+            ops.append(("tick", 10))
+        elif ch == "U":
+            ops.append(("tick", 1))
         elif ch == "X":
             ops.append(("push", "client_2", {"client_id": "client_2", "response_type": ["code"], "__ref": -1}, None))
     return ops
@@ -662,8 +667,8 @@ def par_ops_from_word(word, tag):
 
 def gen_par(R, rng, quick):
     import itertools
-    maxlen = 4 if quick else 6
-    alpha = "PRLTX" if quick else PAR_ALPHABET
+    maxlen = 4 if quick else 5
+    alpha = "PRLTUX" if quick else PAR_ALPHABET
     i = 0
     for oidc in (False, True):
         for ln in range(1, maxlen + 1):
@@ -676,13 +681,13 @@ def gen_par(R, rng, quick):
         # signed pushed objects in the exhaustive part (quick tier): a smaller alphabet
         if quick:
             for ln in range(1, 4):
-                for word in itertools.product("QLT", repeat=ln):
+                for word in itertools.product("QLTU", repeat=ln):
                     i += 1
                     R.run_case("par", (oidc, "pub", True, 10), {}, {}, par_ops_from_word("".join(word), "q%d" % i), note="par word " + "".join(word))
     for j in range(60 if quick else 1500):
         oidc = rng.random() < 0.5
         ln = rng.randint(5, 14)
-        word = "".join(rng.choice("PPQRLLTTX") for _ in range(ln))
+        word = "".join(rng.choice("PPQRLLTUUX") for _ in range(ln))
         ops = par_ops_from_word(word, "r%d" % j)
         # mix in redeemers presenting another client_id, unknown uris, by-value objects next to the request_uri
         for k, op in enumerate(ops):
